@@ -63,6 +63,20 @@ CHECKS["C01"] = dict(
          "the indexed tree (equivalence checked by correspondence, not proved); torch rounding modelled not verified.",
     design="§6 C01")
 
+CHECKS["C03"] = dict(
+    technique="Coq proof that every rescaling code path equals plain pruning in exact arithmetic (any positive scalers, any tree) + sticky-flag induction; the proved interval model is the extended-range reference for a sweep through the subnormal band with histories (floating-point clause decided by the sweep only)",
+    text="Theorems C03_rescaled_eq_plain (for ANY positive per-node scalers, hence the rescaled, the partially "
+         "rescaled 'safe' and the tip-state variants, any tree/categories) and C03_flag_sticky / C03_flag_monotone "
+         "(prop/C03.v). They make the interval run of the plain model a legitimate extended-range reference. The "
+         "clause about doubles (finite and accurate to 1e-8 when site likelihoods are subnormal or underflow) is a "
+         "statement about IEEE arithmetic: it is decided by the sweep only (560/640-taxon caterpillar, balanced and random "
+         "trees, branch scale bisected into every part of the band [5e-324, 2.2e-308] and beyond; fresh models, "
+         "up-and-down histories on one model with the flag observed, batches mixing regimes).",
+    note="Trusted: Coq kernel; hand-written models M_like.v/M_rescale.v; oracle transition matrices from p_t; the "
+         "floating-point accuracy clause is NOT proved (no Flocq-level analysis of batched pruning): exploration only, "
+         "stated here on purpose.",
+    design="§6 C03")
+
 PENDING_REASON = "check not built yet in this session (build order in DESIGN.md §9); will be claimed once its theorem file and correspondence run clean"
 
 
